@@ -261,6 +261,70 @@ fn part_a(rng: &mut Rng, thorough: bool, st: &mut Stats, cw: &mut CaseWriter) {
             }
         }
     }
+    // ---- ValueStack: directed CINDEX / MINDEX boundary arguments (round 7) ----
+    // For every capacity, both modes, every fill level L (= len once the index cell is pushed) and every boundary
+    // index argument: fill with distinct values, push the index, apply copy_index / move_index once (and once more, to
+    // observe the state the first call left).  The whole backing store is compared, so the element moved/copied is pinned.
+    for cap in [0usize, 1, 2, 3, 8] {
+        for ped in [false, true] {
+            for l in 0..=cap as i64 {
+                let args: Vec<(&str, i64)> = if l == 0 {
+                    vec![("empty", 0)]
+                } else {
+                    vec![
+                        ("0", 0),
+                        ("1", 1),
+                        ("len-2", l - 2),
+                        ("len-1", l - 1),
+                        ("len", l),
+                        ("len+1", l + 1),
+                        ("-1", -1),
+                        ("-len", -l),
+                        ("i32min", i32::MIN as i64),
+                        ("i32min+1", i32::MIN as i64 + 1),
+                        ("i32max", i32::MAX as i64),
+                    ]
+                };
+                for (class, arg) in &args {
+                    for (opname, op) in [("copy", VOp::CopyIndex), ("move", VOp::MoveIndex)] {
+                        let mut ops: Vec<VOp> = (1..l).map(|k| VOp::Push(10 * k as i32 + 1)).collect();
+                        if l > 0 {
+                            ops.push(VOp::Push(*arg as i32));
+                        }
+                        let at = ops.len();
+                        ops.push(op.clone());
+                        ops.push(VOp::Peek);
+                        ops.push(op.clone());
+                        let (obs, flen, init, store, msg) = run_vs(cap, ped, &ops);
+                        st.evaluations += 1;
+                        st.count("vs.directed_index_cases");
+                        if let Some(ob) = obs.get(at) {
+                            st.count(&format!("vs.idx.{}.{}.{}", opname, class, ob.0));
+                        }
+                        if let Some(m) = &msg {
+                            report_once(st, json!({"key": panic_key(&last_loc(), m), "instance": format!("valuestack cap={} pedantic={} directed {} {}", cap, ped, opname, class),
+                                "ops": ops.iter().map(vop_term).collect::<Vec<_>>(), "panic": m}));
+                        }
+                        if flen > cap {
+                            report_once(st, json!({"key": "valuestack:len-exceeds-capacity", "cap": cap, "len": flen}));
+                        }
+                        if obs.iter().any(|o| o.0 != 0) {
+                            st.nontrivial(&format!("{:?}{}{}", ops, cap, ped));
+                        }
+                        cw.push(format!(
+                            "CaseVS {} {} {} {} {} {}",
+                            cbool(ped),
+                            czlist(init.iter().map(|v| *v as i128)),
+                            clist(ops.iter(), vop_term),
+                            clist(obs.iter(), |o| format!("({}, {}, {})", cz(o.0 as i128), cz(o.1), cz(o.2 as i128))),
+                            flen,
+                            czlist(store.iter().map(|v| *v as i128))
+                        ));
+                    }
+                }
+            }
+        }
+    }
     // ---- CallStack ----
     let ncs = if thorough { 600 } else { 150 };
     for i in 0..ncs {
